@@ -9,6 +9,11 @@ the traced `_cons*` limit of that class - as Lean definitions (Gen/C04.lean).
 Props/C04.lean proves, for every class: the update is the affine combination
 with those weights, the weights sum to one, the off-diagonal weights are
 non-negative, and `dz <= limit` makes the self-weight non-negative.
+Inter-assembly gap (flow model): the real Core._flow_model and core.calculate_min_dz are
+executed symbolically on real 2- and 3-assembly cores; Gen/C04Gap.lean holds, per gap cell,
+the generated theorem with its proof (affine form, non-negative weights, `dz <= the cell's
+traced limit` gives a non-negative self weight).  Unrodded regions, the no-flow / duct-average
+gap models and adiabatic walls are decided by the probing oracle.
 """
 import random
 from fractions import Fraction
@@ -17,7 +22,7 @@ import numpy as np
 
 from harness import bundle_trace as bt
 from harness import dasshutil as du
-from harness.trace import (GEN_HEADER, Sym, Trace, TraceError, eval_exact, rename, substitute, to_lean, used_vars)
+from harness.trace import (GEN_HEADER, Sym, Trace, TraceError, eval_exact, rebind, rename, substitute, to_lean, used_vars)
 
 INT_CODES = ["1-111", "1-112", "2-122", "2-123", "2-133", "3-22"]
 BYP_CODES = ["6-66", "6-67", "6-77", "7-66"]
@@ -214,9 +219,86 @@ def render(defs):
     return "\n".join(out)
 
 
+def collect_gap(ctx):
+    """Inter-assembly gap (flow model): the real Core._flow_model and the real core.calculate_min_dz are executed symbolically on
+    the gap mesh of real 2- and 3-assembly cores (shared set-up with C02).  For every gap cell the weights of the explicit
+    update and the cell's own step limit are emitted with a theorem: the update is the affine combination with those weights,
+    the neighbour / duct weights are non-negative and `dz <= limit` makes the self weight non-negative."""
+    import re
+    from dassh.core import Core
+    import dassh.core as coremod
+    from harness.checks import c02
+    from harness.trace import NpProxy
+    rng = random.Random(2000)
+    L = ["-- GENERATED by /verif/harness (C04, inter-assembly gap): traced from dassh.core.Core._flow_model / calculate_min_dz.",
+         "import Mathlib.Algebra.Order.Field.Basic", "import Mathlib.Tactic.FieldSimp", "import Mathlib.Tactic.Ring",
+         "import Mathlib.Tactic.Linarith", "import Mathlib.Tactic.Positivity", "",
+         "namespace Dassh.Gen.C04Gap", "", "variable {K : Type} [Field K] [LinearOrder K] [IsStrictOrderedRing K]", ""]
+    names = []
+    for tag, positions in (("two", [(1, 1), (2, 1)]), ("three", [(1, 1), (2, 1), (2, 2)])):
+        o, core, tr, m, g, td, dz, sym_ok = c02.sym_core(rng, positions, "c04" + tag)
+        n = int(core.n_sc)
+        dT = rebind(Core._flow_model, tr)(o, dz, td)
+        rec = []
+
+        class NP(NpProxy):
+            def min(self, a, *k, **kw):
+                arr = np.asarray(a, dtype=object).ravel()
+                rec.append(arr)
+                vals = [x.val if isinstance(x, Sym) else float(x) for x in arr]
+                return arr[int(np.argmin(vals))]
+        o._update_coolant_gap_params = lambda T: None
+        rebind(coremod.calculate_min_dz, tr, {'np': NP(tr)})(o, 600.0, 700.0)
+        if not rec or len(rec[0]) != n:
+            ctx.problem("trace-shape", "c04 gap limit", "calculate_min_dz no longer takes the minimum over one value per gap cell")
+            continue
+        lim = rec[0]
+        for i in range(n):
+            tnew = o.coolant_gap_temp[i] + dT[i]
+            vs = sorted(used_vars([tnew, lim[i]]))
+            tvars = [v for v in vs if re.match(r"T_\d+$|Td_\d+_\d+$", v)]
+            own = "T_%d" % i
+            others = [v for v in tvars if v != own]
+            params = [v for v in vs if v not in tvars]
+            tr2 = Trace()
+            ident = lambda v: v
+            t2 = rename(tnew, ident, tr2)
+            ws = []
+            for v in others:
+                mp = {u: 0 for u in tvars}
+                mp[v] = 1
+                ws.append(to_lean(substitute(t2, mp, tr2)))
+            limtxt = to_lean(rename(lim[i], ident, tr2))
+            if not limtxt.startswith("((1 : α) / ") or not limtxt.endswith(")"):
+                ctx.problem("trace-shape", "c04 gap limit", "limit of gap cell %d is not 1/(...): %s" % (i, limtxt[:120]))
+                continue
+            den = limtxt[len("((1 : α) / "):-1]
+            fix = lambda t: t.replace("(1 : α)", "(1 : K)").replace("(0 : α)", "(0 : K)")
+            ws, den, ttxt = [fix(w) for w in ws], fix(den), fix(to_lean(t2))
+            wsum = " + ".join(ws) if ws else "(0 : K)"
+            nm = "gap_%s_%d" % (tag, i)
+            hyps = " ".join("(h_%s : 0 < %s)" % (v, v) for v in params)
+            L.append("/-- gap cell %d of the traced %s-assembly core: %d coupled temperatures -/" % (i, tag, len(others)))
+            L.append("theorem %s (%s : K) %s\n    (hlim : dz ≤ 1 / %s) :\n    %s = (1 - (%s)) * %s + (%s)\n    ∧ %s\n    ∧ 0 ≤ 1 - (%s) := by"
+                     % (nm, " ".join(tvars + params), hyps, den, ttxt, wsum, own,
+                        " + ".join("%s * %s" % (w, v) for w, v in zip(ws, others)) if ws else "(0 : K)",
+                        " ∧ ".join("0 ≤ %s" % w for w in ws) if ws else "True", wsum))
+            L.append("  have hS : 0 < %s := by positivity" % den)
+            L.append("  have hsum : %s = dz * (%s) := by ring" % (wsum, den))
+            L.append("  have hle : dz * (%s) ≤ 1 := (le_div_iff₀ hS).mp hlim" % den)
+            L.append("  refine ⟨by field_simp; ring, %s, by rw [hsum]; linarith⟩\n"
+                     % (", ".join("by positivity" for _ in ws) if ws else "trivial"))
+            names.append("Dassh.Gen.C04Gap." + nm)
+        ctx.count("gap_cells_traced", n)
+    L.append("end Dassh.Gen.C04Gap\n")
+    ctx.gen("C04Gap", "\n".join(L))
+    return names
+
+
 def generate(ctx):
     defs = collect(ctx, random.Random(2000))
     ctx.gen("C04", render(defs))
+    collect_gap(ctx)
     return defs
 
 
@@ -227,12 +309,13 @@ def run(ctx):
     try:
         defs = collect(ctx, random.Random(2000))
         ctx.gen("C04", render(defs))
+        collect_gap(ctx)
     except Exception:
         import traceback
         ctx.problem("trace-failed", "c04 tracer", traceback.format_exc()[-2000:])
         defs = None
     if defs is not None:
-        ctx.prove("Dassh.Props.C04")
+        ctx.prove("Dassh.Props.C04", also=["Dassh.Gen.C04Gap"])
     oracle_rodded(ctx, rng, 200 if ctx.thorough else 40)
     oracle_unrodded(ctx, rng, 300 if ctx.thorough else 60)
     oracle_core(ctx, rng, 60 if ctx.thorough else 12)
